@@ -12,6 +12,7 @@ import (
 	"sync"
 	"time"
 
+	"github.com/nspcc-dev/dbft"
 	"github.com/nspcc-dev/dbft/verifh/ev"
 	"github.com/nspcc-dev/dbft/verifh/mon"
 	"github.com/nspcc-dev/dbft/verifh/vnet"
@@ -108,6 +109,7 @@ func Build(s Spec, mons ...vnet.Monitor) *Built {
 	rejecting := false
 	watchRejects := false
 	watchFlips := false
+	amnesiaAfterProposal := false
 	initTx := 0
 	switch s.Profile {
 	case "sync-perm":
@@ -269,6 +271,13 @@ func Build(s Spec, mons ...vnet.Monitor) *Built {
 				cfg.Roles[id] = vnet.Silent
 			}
 		}
+	case "amnesia":
+		if cfg.N >= 7 && r.Intn(3) == 0 {
+			// the primary of the first height is silent, so the view changes; the primary of view 1 will
+			// be restarted right after its proposal (silent + amnesiac = 2 <= F)
+			amnesiaAfterProposal = true
+			cfg.Roles[int((uint64(cfg.BaseHeight)+1)%uint64(cfg.N))] = vnet.Silent
+		}
 	case "partition":
 		if r.Intn(3) == 0 && f > 0 { // additionally one silent validator
 			cfg.Roles[r.Intn(cfg.N)] = vnet.Silent
@@ -300,8 +309,26 @@ func Build(s Spec, mons ...vnet.Monitor) *Built {
 		if r.Intn(2) == 0 {
 			at = append(at, at[0]+1+r.Intn(30*cfg.N))
 		}
+		afterProposal := amnesiaAfterProposal // restart right after a proposal of x in a view > 0 went out
+		if afterProposal {
+			x = int((uint64(cfg.BaseHeight) + uint64(cfg.N)) % uint64(cfg.N)) // primary of (first height, view 1)
+			at = at[:1]
+		}
+		seen := 0
 		hooks.BeforeStep = func(c *vnet.Cluster) {
-			if len(at) > 0 && c.Steps >= at[0] {
+			if afterProposal && len(at) > 0 {
+				for ; seen < len(c.Trace); seen++ {
+					e := c.Trace[seen]
+					if e.Node == x && e.Kind == vnet.KSend && e.P.T == dbft.PrepareRequestType && e.P.View > 0 && c.Nodes[x].Live() {
+						at = at[1:]
+						c.NoteFault()
+						c.Nodes[x].Restart()
+						seen = len(c.Trace)
+						return
+					}
+				}
+			}
+			if len(at) > 0 && c.Steps >= at[0] && (!afterProposal || c.Steps > 60*cfg.N) {
 				at = at[1:]
 				if n := c.Nodes[x]; n.Live() {
 					c.NoteFault()
